@@ -24,8 +24,11 @@ for d in $(ls /verif/seeded | grep -v MATRIX | grep -E -e "$FILTER"); do
   caught=""
   for id in $IDS; do
     out=$(cd /verif && timeout 600 /var/tmp/lvc-$TAG/lvc check $id --repo $M 2>&1)
-    if [ $? -ne 0 ]; then
+    rc=$?
+    if [ $rc -ne 0 ]; then
       ob=$(echo "$out" | grep -m1 "^VIOLATION" | sed 's/.*obligation=\([^ ]*\).*/\1/')
+      # a non-zero exit WITHOUT a VIOLATION line is a failure of the checker, not a catch: keep its output
+      [ -n "$ob" ] || { ob="CHECKER-FAILURE exit=$rc"; echo "$out" | tail -30 > /var/tmp/lvc-$TAG-failure-$d-$id.txt; }
       caught="$caught\"$id: $ob\","
     fi
   done
@@ -36,4 +39,4 @@ for d in $(ls /verif/seeded | grep -v MATRIX | grep -E -e "$FILTER"); do
 done
 echo "" >> $OUT.tmp; echo "}" >> $OUT.tmp
 mv $OUT.tmp $OUT
-rm -rf /var/tmp/lvc-$TAG
+rm -rf /var/tmp/lvc-$TAG /verif/work/scratch_var_tmp_lvc-${TAG}_repo
